@@ -535,8 +535,15 @@ fn literal_key_program(rng: &mut StdRng) -> Vec<u8> {
         items.extend([Item::Op(0x36), Item::PushLabel { label: 0, width: 2, high: 0, delta: 0 }, Item::Op(0x57)]);
     }
     for i in 0..n {
-        let key: Vec<u8> = match rng.gen_range(0..7) {
+        let key: Vec<u8> = match rng.gen_range(0..9) {
             0 => vec![rng.gen_range(0..50)],
+            // a literal right next to the hash of a small slot number (keccak(n) +- k): a constant like any other -
+            // only keccak(n) itself denotes array data
+            7 | 8 => {
+                let h = U256::from_be_bytes(unhex(&keccak_word(rng.gen_range(0..12))).unwrap().try_into().unwrap());
+                let k = U256::from([1u32, 1, 2, 3, 7, 15, 16, 17, 32, 255, 256][rng.gen_range(0..11)]);
+                (if rng.gen_bool(0.75) { h.wrapping_add(k) } else { h.wrapping_sub(k) }).to_be_bytes().to_vec()
+            }
             1 => vec![1, 0, 0, 0, 0, 0, 0, 0, rng.gen()],                 // >= 2^64
             2 => {
                 let mut k = vec![0u8; 17];
